@@ -51,26 +51,34 @@ def peel(x):
     return rev, srt, x
 
 
-def run(ctx, chk, tier):
-    chk.rule_text = ("obligations: curve consistency and containment for 8 supply combinations, reversal parity for 8 x-axes x 4 configurations, point counts, 12 derived views; "
-                     "non-trivial = obligation mentions derived threshold terms")
-    chk.explanation = ("roc() is explored with the Scores API stubbed. The returned thresholds are a sorted (and possibly reversed) concatenation: every supplied threshold and the "
-                       "threshold setter applied to every supplied FNR/FPR array must be a part of it (multiset-preserving operators only), and FNR/FPR are the object's rates at "
-                       "exactly that array. The number of reversals after the ascending sort must equal, modulo 2, whether the x-axis metric decreases with the threshold under the "
-                       "configuration (direction derived from cm() through the object's own rate term). Default supports have nb_points//2 + (nb_points - nb_points//2) points, or "
-                       "one per scored sample.")
-    chk.trusted |= {"numpy.sort / concatenate / [::-1] preserve the multiset", "numpy.linspace(a, b, n) has n points", "C01/C04 for the direction of each rate"}
+def support_args_untouched(ctx, chk, rule="R15.6", with_extra=False):
+    """The support-point helper only reads the caller's fnr / fpr / thresholds (lists and tuples are documented inputs; arrays must not be
+    re-ordered behind the caller's back): no in-place operation reaches their storage, with or without extra points."""
     ev = ctx.ev
-    roc = ctx.fn(ROCQ)
-    combos = [{"fnr": F}, {"fpr": P}, {"thresholds": TH}, {"fnr": F, "fpr": P}, {"fnr": F, "thresholds": TH}, {"fpr": P, "thresholds": TH}, {"fnr": F, "fpr": P, "thresholds": TH}]
-    for kw in combos:
-        outs = with_stubs(ctx, lambda: ctx.explore(lambda: ev.call(roc, [ctx.scores_obj("pos", "pos")], dict(kw, x_axis=Const("fnr"))), chk))
-        inst = "+".join(sorted(kw))
-        rets = [o for o in returns(outs) if not any(t and isinstance(c, App) and c.fn == "eq0" for c, t in o.pc)]  # the branch where the supplied arrays are non-empty
-        if len(rets) != 1 or rets[0].unmodelled or not isinstance(rets[0].value, Obj):
-            chk.unknown("R15.1", "roc(%s): %d relevant return paths" % (inst, len(rets)))
-            continue
-        r = rets[0].value
+    f = ctx.fn(FST)
+    NE = Sym("nb_extra", ("int", "notnone"))
+    n = 0
+    for kw in ({"thresholds": TH}, {"fnr": F}, {"fpr": P}, {"fnr": F, "fpr": P, "thresholds": TH}):
+        for extra in ((Const(None), NE) if with_extra else (Const(None),)):
+            args = {"fnr": Const(None), "fpr": Const(None), "thresholds": Const(None), "nb_points": NB, "nb_extra_points": extra, "x_axis": Const("fnr")}
+            args.update(kw)
+            outs = with_stubs(ctx, lambda: ctx.explore(lambda: ev.call(f, [ctx.scores_obj("pos", "pos")], dict(args)), chk))
+            for o in returns(outs):
+                n += 1
+                bad = [e for e in o.events if e["kind"] in ("inplace", "augstore", "store") and e.get("root") in (TH, F, P)]
+                inst = "args-untouched:%s:extra=%s:path[%s]" % ("+".join(sorted(kw)), "no" if extra == Const(None) else "yes", "".join("T" if t else "F" for _c, t in o.pc))
+                if bad:
+                    e = bad[0]
+                    chk.violation(rule, FST, "args-untouched:%s:extra=%s" % ("+".join(sorted(kw)), "no" if extra == Const(None) else "yes"),
+                                  "%s of %s (storage of %s)" % (e.get("how", e["kind"]), e.get("target", "?"), show(e["root"], 40)),
+                                  "supplied fnr / fpr / thresholds are only read", "score_analysis/roc_curve.py:%s" % getattr(e.get("node"), "lineno", "?"))
+                else:
+                    chk.hold(rule, inst, "no in-place write reaches the caller's arrays")
+    if n < (8 if with_extra else 4):
+        chk.unknown(rule, "only %d paths of the support-point helper analysed" % n)
+
+
+def _supplied_path(ctx, chk, kw, inst, r):
         X = r.attrs.get("thresholds")
         if same(r.attrs.get("fnr"), App("FNR", (X,))) and same(r.attrs.get("fpr"), App("FPR", (X,))):
             chk.hold("R15.1", inst, "fnr = scores.fnr(thresholds), fpr = scores.fpr(thresholds) on the returned array")
@@ -96,6 +104,34 @@ def run(ctx, chk, tier):
             chk.unknown("R15.2", "roc(%s): threshold construction not understood: %s" % (inst, show(X, 160)))
         else:
             chk.violation("R15.2", FST, inst + ":extra-points", [show(p_, 60) for p_ in extra], "only the supplied points when any are supplied", ctx.where(FST))
+
+
+def run(ctx, chk, tier):
+    chk.rule_text = ("obligations: curve consistency and containment for 8 supply combinations, reversal parity for 8 x-axes x 4 configurations, point counts, 12 derived views; "
+                     "non-trivial = obligation mentions derived threshold terms")
+    chk.explanation = ("roc() is explored with the Scores API stubbed. The returned thresholds are a sorted (and possibly reversed) concatenation: every supplied threshold and the "
+                       "threshold setter applied to every supplied FNR/FPR array must be a part of it (multiset-preserving operators only), and FNR/FPR are the object's rates at "
+                       "exactly that array. The number of reversals after the ascending sort must equal, modulo 2, whether the x-axis metric decreases with the threshold under the "
+                       "configuration (direction derived from cm() through the object's own rate term). Default supports have nb_points//2 + (nb_points - nb_points//2) points, or "
+                       "one per scored sample.")
+    chk.trusted |= {"numpy.sort / concatenate / [::-1] preserve the multiset", "numpy.linspace(a, b, n) has n points", "C01/C04 for the direction of each rate"}
+    ev = ctx.ev
+    roc = ctx.fn(ROCQ)
+    combos = [{"fnr": F}, {"fpr": P}, {"thresholds": TH}, {"fnr": F, "fpr": P}, {"fnr": F, "thresholds": TH}, {"fpr": P, "thresholds": TH}, {"fnr": F, "fpr": P, "thresholds": TH}]
+    for kw in combos:
+        outs = with_stubs(ctx, lambda: ctx.explore(lambda: ev.call(roc, [ctx.scores_obj("pos", "pos")], dict(kw, x_axis=Const("fnr"))), chk))
+        inst = "+".join(sorted(kw))
+        rets = [o for o in returns(outs) if not any(t and isinstance(c, App) and c.fn == "eq0" for c, t in o.pc)]  # the branch where the supplied arrays are non-empty
+        if not rets or any(o.unmodelled or not isinstance(o.value, Obj) for o in rets):
+            chk.unknown("R15.1", "roc(%s): %d relevant return paths" % (inst, len(rets)))
+            continue
+        base_inst = inst
+        for o_ in rets:
+            # every path that is feasible with non-empty supplied arrays must satisfy the clauses
+            inst = base_inst if len(rets) == 1 else "%s:path[%s]" % (base_inst, pc_text(o_)[:80])
+            r = o_.value
+            _supplied_path(ctx, chk, kw, inst, r)
+    support_args_untouched(ctx, chk)
     # ---------------- R15.4 point counts
     for kw, label in (({"nb_points": NB}, "nb_points"), ({"nb_points": Const(None)}, "all-scores")):
         outs = with_stubs(ctx, lambda: ctx.explore(lambda: ev.call(roc, [ctx.scores_obj("pos", "pos")], dict(kw, x_axis=Const("fnr"))), chk))
